@@ -1,6 +1,8 @@
 import Litep2pVerif.Proofs.Kad.Coordinator
 import Litep2pVerif.Proofs.Kad.CoordinatorOwned
 import Litep2pVerif.Proofs.Kad.CoordinatorQuorum
+import Litep2pVerif.Proofs.Kad.Executor
+import Litep2pVerif.Proofs.Kad.Serve
 import Litep2pVerif.Generated.Consts
 /-!
 # C16 — Every Kademlia operation started by the user ends with one terminal event
@@ -21,6 +23,18 @@ guards the tie between model and code, it is no longer a hypothesis of any theor
 -/
 namespace Litep2pVerif.Props.C16
 open Litep2pVerif Litep2pVerif.Kad.Coordinator
+
+theorem pair_eq_of_nodup_fst {α} (l : List (Nat × α)) (h : (l.map (·.1)).Nodup) {a b : Nat × α} (ha : a ∈ l) (hb : b ∈ l)
+    (hab : a.1 = b.1 := by rfl) : a = b := by
+  induction l with
+  | nil => cases ha
+  | cons x l ih =>
+    simp only [List.map_cons, List.nodup_cons] at h
+    rcases List.mem_cons.mp ha with ha | ha <;> rcases List.mem_cons.mp hb with hb | hb
+    · rw [ha, hb]
+    · exfalso; apply h.1; rw [← ha, hab]; exact List.mem_map.mpr ⟨b, hb, rfl⟩
+    · exfalso; apply h.1; rw [← hb, ← hab]; exact List.mem_map.mpr ⟨a, ha, rfl⟩
+    · exact ih h.2 ha hb
 
 theorem count_le_one_of_nodup (l : List (Qid × Bool)) (h : (l.map (·.1)).Nodup) (q : Qid) :
     (l.filter (fun e => e.1 == q)).length ≤ 1 := by
@@ -229,6 +243,189 @@ theorem quorum_clamp_rule (peers : List Peer) (k : Nat) (hk : 1 ≤ k) :
 example : (Tracker.new [4, 5] (.n 3)).peersToSucceed = 2 ∧ (Tracker.new [] .all).peersToSucceed = 1 ∧
     (Tracker.new [4, 4] .all).peersToSucceed = 2 ∧ (Tracker.new [4, 4] .all).pending = [4] := by decide
 
+/-! ## The executor: every submitted future yields exactly one result, in bounded time -/
+
+/-- **Exactly one result per submitted future.** In every pool reachable by submissions (fresh ids, any method, any
+script of the substream: blocked / unblocked / reset writes, replies, EOF, oversized frames at any time) and ticks of
+the clock: a submitted future is either still pending or was yielded exactly once — never lost, never twice; the
+result is one its method can produce; it was yielded no later than `WRITE_TIMEOUT + READ_TIMEOUT` after the submission,
+and once that time has passed the future is no longer pending. -/
+theorem executor_exactly_one_result (w r : Nat) (p : Kad.Executor.Pool) (h : Kad.Executor.Reach w r p)
+    (id : Nat) (kind : Kad.Executor.Kind) (t : Nat) (hs : (id, kind, t) ∈ p.submitted) :
+    (p.delivered.filter (fun d => d.1 == id)).length ≤ 1 ∧
+    ((p.delivered.filter (fun d => d.1 == id)).length = 1 ↔ id ∉ p.pending.map (·.id)) ∧
+    (t + w + r ≤ p.now → (p.delivered.filter (fun d => d.1 == id)).length = 1) ∧
+    (∀ d ∈ p.delivered, d.1 = id → Kad.Executor.Res.allowed kind d.2.1 = true ∧ d.2.2.2 ≤ t + w + r) := by
+  have inv := Kad.Executor.PInv.reach h
+  have hid : id ∈ p.submitted.map (·.1) := List.mem_map.mpr ⟨_, hs, rfl⟩
+  have hnd : (p.pending.map (·.id) ++ p.delivered.map (·.1)).Nodup := inv.perm.nodup_iff.mpr inv.nodup
+  have hmem : id ∈ p.pending.map (·.id) ++ p.delivered.map (·.1) := inv.perm.mem_iff.mpr hid
+  have hle := Kad.Executor.filter_length_le_one p.delivered (·.1) (List.nodup_append.mp hnd).2.1 id
+  have hiff : (p.delivered.filter (fun d => d.1 == id)).length = 1 ↔ id ∉ p.pending.map (·.id) := by
+    constructor
+    · intro h1 hp
+      have : id ∈ p.delivered.map (·.1) := by
+        have : 0 < (p.delivered.filter (fun d => d.1 == id)).length := by omega
+        obtain ⟨a, ha⟩ := List.exists_mem_of_length_pos this
+        have ha' := List.mem_filter.mp ha
+        exact List.mem_map.mpr ⟨a, ha'.1, by simpa using ha'.2⟩
+      exact (List.nodup_append.mp hnd).2.2 id hp id this rfl
+    · intro hp
+      have : id ∈ p.delivered.map (·.1) := by
+        rcases List.mem_append.mp hmem with h1 | h1
+        · exact absurd h1 hp
+        · exact h1
+      have := Kad.Executor.filter_length_pos p.delivered (·.1) id this
+      omega
+  refine ⟨hle, hiff, ?_, ?_⟩
+  · intro hnow
+    apply hiff.mpr
+    intro hp
+    obtain ⟨f, hf, hfid⟩ := List.mem_map.mp hp
+    obtain ⟨_, hlive, t', ht', hb⟩ := inv.pend f hf
+    have hsame : t' = t := by
+      have h1 : (f.id, f.kind, t') ∈ p.submitted := ht'
+      rw [hfid] at h1
+      have := pair_eq_of_nodup_fst p.submitted inv.nodup h1 hs
+      exact (Prod.mk.inj (Prod.mk.inj this).2).2
+    have := Kad.Executor.live_horizon (r := r) hlive
+    omega
+  · intro d hd hdid
+    obtain ⟨k, t', ht', hall, htime⟩ := inv.deliv d hd
+    rw [hdid] at ht'
+    have := pair_eq_of_nodup_fst p.submitted inv.nodup ht' hs
+    have hk : k = kind := (Prod.mk.inj (Prod.mk.inj this).2).1
+    have ht : t' = t := (Prod.mk.inj (Prod.mk.inj this).2).2
+    subst hk; subst ht
+    exact ⟨hall, htime⟩
+
+/-- Non-vacuity: a request whose reply never comes, one that cannot even be written and a plain send, after 30 s. -/
+example :
+    let p := ((((({} : Kad.Executor.Pool).submit 15 15 1 .reqResp false [(0, .writable)]).submit 15 15 2 .reqEat false []).submit
+      15 15 3 .send false [(2, .writable)]).ticks 15 30)
+    p.pending.length = 0 ∧ p.delivered = [(3, .sendOk, true, 2), (1, .readFailTimeout, true, 15), (2, .sendFailTimeout, false, 15)] := by
+  decide
+
+/-- The executor's methods as the coordinator uses them (`on_outbound_substream`). -/
+def futKind : FKind → Kad.Executor.Kind
+  | .reqResp => .reqResp
+  | .putEat => .reqEat
+  | .sendMsg => .send
+
+/-- `QueryResult` as the coordinator's event loop sees it (the failure reason is only logged). -/
+def coordRes : Kad.Executor.Res → Res
+  | .sendOk => .sendOk | .assumeOk => .assumeOk
+  | .sendFailTimeout | .sendFailClosed => .sendFail
+  | .readOk => .readOk
+  | .readFailTimeout | .readFailClosed => .readFail
+
+/-- **The result table of the coordinator model is the executor's.** Whatever a future of the executor model yields
+is a result the coordinator model accepts for that kind of future (`Res.allowed`, so far a hand-written table). -/
+theorem executor_results_allowed (k : FKind) (res : Kad.Executor.Res)
+    (h : Kad.Executor.Res.allowed (futKind k) res = true) : Res.allowed k (coordRes res) = true := by
+  cases k <;> cases res <;> first | rfl | exact absurd h (by decide)
+
+example : Kad.Executor.Res.allowed (futKind .putEat) .assumeOk = true ∧ Res.allowed .putEat (coordRes .assumeOk) = true := by
+  decide
+
+/-- Handle one executor result per outstanding future. -/
+def drain (s : State) (rs : List (Fut × Res)) : State := rs.foldl (fun s x => execResult s x.1 x.2) s
+
+theorem execResult_obligations (s : State) (f : Fut) (r : Res) (hf : f ∈ s.futs) (ha : Res.allowed f.kind r = true) :
+    (execResult s f r).futs = s.futs.erase f ∧ (execResult s f r).dialing = s.dialing ∧
+    (execResult s f r).opening = s.opening := by
+  unfold execResult
+  rw [if_pos ⟨hf, ha⟩]
+  cases r <;> exact ⟨rfl, rfl, rfl⟩
+
+theorem drain_spec (rs : List (Fut × Res)) (s : State) (h : Reachable s) (hperm : (rs.map (·.1)).Perm s.futs)
+    (hall : ∀ x ∈ rs, Res.allowed x.1.kind x.2 = true) :
+    Reachable (drain s rs) ∧ (drain s rs).futs = [] ∧ (drain s rs).dialing = s.dialing ∧
+    (drain s rs).opening = s.opening := by
+  induction rs generalizing s with
+  | nil =>
+    have : s.futs = [] := List.Perm.eq_nil (hperm.symm)
+    exact ⟨h, this, rfl, rfl⟩
+  | cons x rs ih =>
+    have hf : x.1 ∈ s.futs := hperm.mem_iff.mp (by simp)
+    have ha := hall x List.mem_cons_self
+    have ho := execResult_obligations s x.1 x.2 hf ha
+    have hr : Reachable (execResult s x.1 x.2) := .step (.result x.1 x.2) h rfl
+    have hp : (rs.map (·.1)).Perm (execResult s x.1 x.2).futs := by
+      rw [ho.1]
+      have := hperm.erase x.1
+      simpa using this
+    have := ih (execResult s x.1 x.2) hr hp (fun y hy => hall y (List.mem_cons_of_mem _ hy))
+    refine ⟨this.1, this.2.1, ?_, ?_⟩
+    · rw [show drain s (x :: rs) = drain (execResult s x.1 x.2) rs from rfl, this.2.2.1, ho.2.1]
+    · rw [show drain s (x :: rs) = drain (execResult s x.1 x.2) rs from rfl, this.2.2.2, ho.2.2]
+
+/-- **Every query terminates.** Take any reachable state whose dials are concluded and substream opens answered. The
+executor yields exactly one allowed result for each outstanding future within `WRITE_TIMEOUT + READ_TIMEOUT`
+(`executor_exactly_one_result`, `executor_results_allowed`) — `rs`, in any order. Once the coordinator has handled
+them, no executor obligation is left, and as soon as the engine has nothing more to do every operation ever started has
+exactly one terminal event. (A lost result would leave its future in `futs` for ever, and with it the query that waits
+for the peer — `waiting_owned`.) -/
+theorem every_query_terminates (s : State) (h : Reachable s) (hd : s.dialing = []) (ho : s.opening = [])
+    (rs : List (Fut × Res)) (hperm : (rs.map (·.1)).Perm s.futs)
+    (hall : ∀ x ∈ rs, Res.allowed x.1.kind x.2 = true) (hidle : engineIdle (drain s rs).engine = true) :
+    (drain s rs).futs = [] ∧ (drain s rs).engine = [] ∧
+    ∀ q ∈ (drain s rs).started, ((drain s rs).events.filter (fun e => e.1 == q)).length = 1 := by
+  have hs := drain_spec rs s h hperm hall
+  have hq : Quiescent (drain s rs) := ⟨by rw [hs.2.2.1, hd], by rw [hs.2.2.2, ho], hs.2.1, hidle⟩
+  have := terminal_once_at_quiescence (drain s rs) hs.1 hq
+  exact ⟨hs.2.1, this.1, this.2⟩
+
+/-- Non-vacuity: a lookup whose only request times out. -/
+example :
+    let s := run {} [.cmd .findNode, .established 4 [], .engine (.send 0 4) [⟨true, .err, false⟩], .subOpened 0]
+    s.futs = [⟨4, 0, .reqResp⟩] ∧ s.dialing = [] ∧ s.opening = [] ∧
+    (drain s [(⟨4, 0, .reqResp⟩, .readFail)]).futs = [] ∧
+    engineIdle (run (drain s [(⟨4, 0, .reqResp⟩, .readFail)]) [.engine (.lookupDone 0 false []) []]).engine = true := by
+  decide
+
+/-! ## Inbound requests are answered and validated per configuration -/
+
+/-- **Manual validation mode never stores by itself.** For every history of inbound requests and user commands, in
+`IncomingRecordValidationMode::Manual` every key of the record store was stored by the user (`store_record`,
+`put_record`, `put_record_to_peers` with local update) — an inbound `PUT_VALUE` is acknowledged and reported, not
+stored; in automatic mode an acceptable inbound record is stored. -/
+theorem manual_validation_never_stores (cfg : Kad.Serve.Cfg) (ops : List Kad.Serve.Op) :
+    (cfg.manualValidation = true →
+      ∀ k ∈ Kad.Serve.keys (Kad.Serve.run cfg {} ops), k ∈ Kad.Serve.userKeys ops) ∧
+    (cfg.manualValidation = false → ∀ (st : Kad.Serve.SState) (p k size : Nat), size < cfg.maxRecordSize →
+      st.records.length < cfg.maxRecords → k ∈ Kad.Serve.keys (Kad.Serve.serve cfg st p (.putValue k size)).1) := by
+  refine ⟨fun hm k hk => ?_, fun ha st p k size h1 h2 => Kad.Serve.serve_auto_stores cfg ha st p k size h1 (.inr h2)⟩
+  rcases Kad.Serve.manual_keys cfg hm ops {} k hk with h | h
+  · simp [Kad.Serve.keys] at h
+  · exact h
+
+example : Kad.Serve.keys (Kad.Serve.run { manualValidation := true } {}
+      [.inbound 1 (.putValue 5 1), .inbound 1 (.getValue (some 5)), .userPut 6 1]) = [6] ∧
+    Kad.Serve.keys (Kad.Serve.run {} {} [.inbound 1 (.putValue 5 1)]) = [5] := by decide
+
+/-- **Requests are answered per kind, whatever the configuration**: exactly the `FIND_NODE`, `GET_VALUE`, `PUT_VALUE`
+and `GET_PROVIDERS` requests (the latter two kinds of lookups with a key) get a response — the `PUT_VALUE`
+acknowledgement also in manual validation mode and when the record is filtered out. -/
+theorem inbound_answered_per_kind (cfg : Kad.Serve.Cfg) (st : Kad.Serve.SState) (p : Nat) (req : Kad.Serve.Req) :
+    (Kad.Serve.serve cfg st p req).2.1.isSome = req.answered :=
+  Kad.Serve.serve_reply_iff cfg st p req
+
+example : (Kad.Serve.serve { manualValidation := true, maxRecordSize := 0 } {} 1 (.putValue 5 9)).2.1 = some (.putValue 5 9) ∧
+    (Kad.Serve.serve {} {} 1 (.addProvider 5 1)).2.1 = none := by decide
+
+/-- **Manual routing-table mode never adds by itself.** For every history, in `RoutingTableUpdateMode::Manual` every
+peer of the routing table was added by the user (`add_known_peer` / configured known peers). -/
+theorem manual_update_never_adds (cfg : Kad.Serve.Cfg) (hm : cfg.manualUpdate = true) (ops : List Kad.Serve.Op) :
+    ∀ p ∈ (Kad.Serve.run cfg {} ops).table, p ∈ Kad.Serve.userPeers ops := by
+  intro p hp
+  rcases Kad.Serve.manual_table cfg hm ops {} p hp with h | h
+  · simp at h
+  · exact h
+
+example : (Kad.Serve.run { manualUpdate := true } {} [.learn [(2, true)], .addKnown 3 true]).table = [3] ∧
+    (Kad.Serve.run {} {} [.learn [(2, true)], .addKnown 3 true]).table = [2, 3] := by decide
+
 /-- **The settle step covers the executor's timeouts.** The check's `settle` operation advances the
 (logical) clock by 16 s per round; the executor's read and write timeouts (regenerated from
 `executor.rs` on every run) are shorter, so every silent future has completed afterwards. -/
@@ -243,5 +440,11 @@ theorem settle_covers_timeouts :
 #print axioms put_quorum_sound
 #print axioms quorum_clamp_rule
 #print axioms settle_covers_timeouts
+#print axioms executor_exactly_one_result
+#print axioms executor_results_allowed
+#print axioms every_query_terminates
+#print axioms manual_validation_never_stores
+#print axioms inbound_answered_per_kind
+#print axioms manual_update_never_adds
 
 end Litep2pVerif.Props.C16
